@@ -27,6 +27,11 @@ func GenConnScript(t *rapid.T) ConnScript {
 		s.SplitHello = rapid.IntRange(1, 60).Draw(t, "splitAt")
 		s.Classes = append(s.Classes, "hello-spans-2-records")
 	}
+	if s.SplitHello == 0 && rapid.IntRange(0, 7).Draw(t, "ccs") == 0 {
+		// (completes only when TLS 1.3 is negotiated; other handshakes fail and the case is discarded)
+		s.AppendCCS = true
+		s.Classes = append(s.Classes, "ccs-record-in-the-same-write-as-the-hello")
+	}
 	s.NReq = rapid.IntRange(1, 3).Draw(t, "nreq")
 	s.Custom = rapid.Bool().Draw(t, "custom")
 	if s.Custom {
